@@ -614,6 +614,24 @@ func (E *Engine) Discharge(par int) {
 			}
 			j.q.Result, j.q.Solver, j.q.Output, j.q.Seconds = race(j.q.Script, g, E.timeoutS)
 			j.q.ScriptG = ""
+			if j.q.Result == "sat" && j.o.Kind != "cover" && len(j.q.Names) > 0 {
+				// look for a small model (short slices) that can be replayed
+				var extra strings.Builder
+				for i, n := range j.q.Names {
+					if strings.HasSuffix(n, ".len") && i < len(j.q.Model) {
+						lim := replayMaxLen
+						if j.q.Model[i].S.K == SInt {
+							fmt.Fprintf(&extra, "(assert (<= %s %d))\n", j.q.Model[i].String(), lim)
+						}
+					}
+				}
+				if extra.Len() > 0 {
+					small := strings.Replace(j.q.Script, "(check-sat)", extra.String()+"(check-sat)", 1)
+					if r, out := runSolver("z3-new", small, 10); r == "sat" {
+						j.q.Output = out
+					}
+				}
+			}
 			if j.q.Result == "unsat" || (j.o.Kind == "cover" && j.q.Result == "sat") {
 				j.q.Output = ""
 				if !E.keepScripts {
